@@ -12,7 +12,7 @@ one() {
   exp=$(head -1 "$f" | sed -n 's/^# expect: *//p')
   [ -z "$exp" ] && { echo "NOEXPECT $f"; return 1; }
   d=$(mktemp -d /tmp/selftest.XXXXXX)
-  rsync -a --exclude .git /repo/ "$d/"
+  rsync -a --exclude .git "${SELFTEST_SRC:-/repo}/" "$d/"
   { echo 'def sub(path, old, new, count=1):
     s=open(path).read()
     assert s.count(old)>=1, ("pattern not found", path, old[:60])
